@@ -600,7 +600,19 @@ def _magnitude(x):
     return m[0]
 
 
-def record_chains(worker, seed, ntraces, maxops, env=None):
+def _rand_3d_layout(rng):
+    """ONE three-dimensional NumpyArray with unequal inner dimensions (what ak.Array(np3d) is), alone or as the content of lists"""
+    d1, d2 = rng.choice([(2, 3), (3, 2), (2, 1), (1, 2), (3, 1), (1, 3)])
+    n = rng.randint(1, 3)
+    dt = rng.choice(["i64", "i32", "f64"])
+    L = {"c": "Numpy", "dt": dt, "d": [rng.randint(-3, 9) for _ in range(n * d1 * d2)], "shape": [n, d1, d2]}
+    if rng.random() < 0.3:
+        k = rng.randint(0, 3)
+        L = {"c": "ListOffset", "w": rng.choice(["64", "32"]), "o": sorted(rng.randint(0, n) for _ in range(k + 1)), "x": L}
+    return L
+
+
+def record_chains(worker, seed, ntraces, maxops, env=None, leaf3d=False):
     """one worker case per chain: each op reads register cur and, if it succeeds with an array, replaces it.
     Returns (traces, metas, problems): traces[t] = events for TLC; metas[t][k] = pseudo-case of event k (operation,
     arguments, the operand's physical layout and type: what the known-findings matchers look at);
@@ -611,6 +623,10 @@ def record_chains(worker, seed, ntraces, maxops, env=None):
     for t in range(ntraces):
         L, _n = _rand_layout(rng, rng.randint(1, 3))
         _stride_views(L, random.Random(seed * 31 + t))
+        if leaf3d:
+            r3 = random.Random(seed * 77 + t)           # (its own stream: the other chains stay what they were)
+            if r3.random() < 0.2:
+                L = _rand_3d_layout(r3)
         ops = [_rand_op(rng) for _ in range(rng.randint(2, maxops))]
         steps = [{"op": "build", "dst": "cur", "layout": L, "want": want}]
         for op, a in ops:
